@@ -50,6 +50,12 @@ class Feed:
         self.last_apply = {}        # id(structure) -> (step, handle it was applied to, info) of the latest effective unroll
         self.last_flatten = {}      # id(structure) -> (step, handle)
 
+    def _mark_rel_unknown(self, node):
+        node.rel_known = False
+        for m in node.members:
+            if m.is_comp:
+                self._mark_rel_unknown(m)
+
     def probe(self, k, n=1):
         self.probes[k] = self.probes.get(k, 0) + n
 
@@ -191,6 +197,15 @@ class Feed:
             self.apply_info[st["as"]] = {"effective": eff, "top_reps_before": top_reps_before}
             if eff:
                 self.last_apply[id(root)] = (i, name, {"effective": eff, "top_reps_before": top_reps_before})
+        elif op == "FLATTEN" and ex.failed_flatten.get(i):
+            # the rebuild failed half-way: nothing may be lost - same content, same nesting; which relation links
+            # had already been rewritten when it failed is not specified
+            name = st["c"]
+            M.alias(name, st["as"])
+            self.flags[st["as"]] = self.flags.setdefault(name, set())
+            self._mark_rel_unknown(M.roots[name])
+            self.touch(name, i)
+            self.probe("flatten-failed-midway")
         elif op == "FLATTEN":
             name = st["c"]
             root = M.roots[name]
